@@ -20,6 +20,7 @@ DOC = {
  "C16.R2": "v1 forwarder: on Ok(Some(msg)) every path to an exit passes through the cast; a failed cast returns; Ok(None)/Closed return; Lagged loops",
  "C16.R3": "no task spawn inside the forwarder cycle (v1) or inside dispatch_batch (v2)",
  "C16.R4": "one forwarder task per subscription: the spawn in the subscription constructor is unique and not in a cycle; subscribe prunes with retain(!is_dead) where is_dead = handle.is_finished()",
+ "C16.R6": "v2 Subscriber::send implementations return only the delivery result or the constant true (filtered-out message keeps the subscription)",
  "C16.R5": "v2 dispatch_batch: batch.clear() lies on every path to the exit; a false send removes that subscriber; SetSubscriber is applied after the preceding data segment and before the next; fan-out loop calls dispatch_batch once per received batch",
 }
 
@@ -183,6 +184,32 @@ def r5(run, db):
         run.check(len(rm_) == 1 and len(dp) == 1 and f.in_cycle(dp[0].site) and f.reaches_after(rm_[0].site, dp[0].site), "v2|loop", "fan-out loop: recv_many then dispatch_batch, once per batch", "fan-out loop shape changed", f.where())
 
 
+def r6(run, db):
+    """v2: a subscriber's send() verdict is the only reason a subscriber is dropped (R5), so it may be false only when the
+    delivery to the actor failed; in particular a message the converter filtered out (None) must keep the subscription"""
+    if db.tag != "opv2":
+        run.ok("v2-absent", "the v2 port is compiled only with feature output-port-v2 (analysed under tag opv2)")
+        return
+    impls = [f for f in db.crate_fns("ractor") if (f.raw.get("trait_item") or "").endswith("v2::inner::Subscriber::send") or re.search(r"Subscriber<.*>>::send$", f.id)]
+    run.anchor("Subscriber::send implementations", len(impls), 1)
+    for f in impls:
+        run.saw(len(f.blocks), f)
+        roots = f.origins([0, []])
+        bad = []
+        for r in roots:
+            if r["k"] == "const" and f.value_consts(r["op"]) in (["true"], [True], ["1"]) or (r["k"] == "const" and str(r["op"].get("val", r["op"].get("repr", ""))).strip() in ("true", "const true")):
+                continue
+            if r["k"] == "call" and (r["call"].matches(r"ActorReference::send_message$") or r["call"].matches(r"Result::<T, E>::is_ok$")):
+                continue
+            if r["k"] == "call" and r["call"].matches(r"Option::<T>::is_none_or$"):
+                continue
+            if r["k"] == "call" and r["call"].matches(r"Option::<T>::map_or$") and f.value_consts(r["call"].args[1]) in (["true"], [True]):
+                continue
+            bad.append(r["call"].name if r["k"] == "call" else "%s %s" % (r["k"], r.get("op")))
+        run.check(not bad and bool(roots), "send-verdict:%s" % (f.raw.get("impl_self") or f.id)[:60].split("::")[-1], "send() returns the delivery result, or true when the converter filtered the message out",
+                  "send() of %s can return a verdict that is not the delivery result (%s): a subscriber whose converter returns None for one message is unsubscribed and misses every later publication" % (f.id.split(" as ")[0].split("::")[-1], bad), f.where())
+
+
 Q = ["dflt", "opv2"]
 TH = ["dflt", "opv2", "rc", "astd"]
-RULES = [{"id": "C16.R%d" % i, "fn": f, "quick": Q, "thorough": TH} for i, f in enumerate([r1, r2, r3, r4, r5], 1)]
+RULES = [{"id": "C16.R%d" % i, "fn": f, "quick": Q, "thorough": TH} for i, f in enumerate([r1, r2, r3, r4, r5, r6], 1)]
